@@ -122,8 +122,8 @@ Definition process_logs_f (s : nstate) (infl : list (entry * N)) (index : N)
        | Some items =>
          let handed := filter (fun x => prepare_kind (e_ty (fst x)) =? 1) items in
          let direct := filter (fun x => negb (prepare_kind (e_ty (fst x)) =? 1)) items in
-         Some (set_fsmlast (set_applied s index (fold_left fsm_apply (map fst handed) (v_fsm s)))
-                           (match last_opt (map fst handed) with Some e => (e_idx e, e_term e) | None => v_fsmLast s end),
+         Some (set_applied_fsm s index (fold_left fsm_apply (map fst handed) (v_fsm s))
+                               (match last_opt (map fst handed) with Some e => (e_idx e, e_term e) | None => v_fsmLast s end),
                flat_map fsm_events (map fst handed),
                flat_map (fun x => match snd x with
                                   | Some fid => [mkFR fid (e_idx (fst x)) E_OK 0]
@@ -193,7 +193,7 @@ Definition restore_user (P : params) (ls : lstate) (fs : list bool) (metaIdx : N
       else
         let sn := mkSnap li term (v_latest s) (v_latestIdx s) data true in
         let s1 := set_snaps s (d_snaps s ++ [sn]) in
-        let s2 := set_fsmlast (set_lastsnap (set_applied (set_lastlog s1 li term) li data) li term) (li, term) in
+        let s2 := set_lastsnap (set_applied_fsm (set_lastlog s1 li term) li data (li, term)) li term in
         if p_monotonic P then
           let range := remove_old (log_first (d_log s2)) (log_last (d_log s2)) in
           let '(s3, trc, fs3) := run_compaction s2 fs2 range in
